@@ -281,6 +281,8 @@ def thorough():
                 continue
             if not any(t[0] == 'W' for t in toks):
                 continue
+            if toks[0] == L('/'):
+                continue                      # '//...' is not a rule
             choices = [[t[1]] if t[0] == 'L' else vals[t[2]] for t in toks]
             for combo in itertools.product(*choices):
                 yield mk([list(t) for t in toks], '/' + ''.join(combo))
@@ -495,6 +497,8 @@ def encode(case):
         return [-1]
     po = route.pattern_out
     obs = run_impl(case)
+    if 'rule_error' in obs:
+        return [-1]
     # the texts on which the model may consult a filter
     texts = set()
     if case.get('path') is not None:
